@@ -68,6 +68,9 @@ def run(chk, build, replay=None):
     else:
         for key, e in gen_compose.depth2():
             add("depth2 (parent,slot) x child: exhaustive", e)
+        if not big:
+            for key, e in gen_compose.depth3_sensitive():
+                add("depth3 compositions of precedence-sensitive kinds: exhaustive", e)
         for e in gen_compose.lambda_signatures():
             add("lambda signatures: exhaustive", e)
         for key, e in (gen_compose.depth3() if big else gen_compose.depth3(rng, 8000)):
